@@ -1063,5 +1063,58 @@ def rule_merge(ctx):
                         "figures installed by annealing moves follow the tree's survival rule", lambda i: True, 3)
 
 
-RULES = [rule_merge, rule_arith, rule_copy, rule_alias, rule_track, rule_staleread, rule_pre, rule_presource, rule_whole,
+def rule_orient(ctx):
+    """(seed C04_13) Which child of a node is 'left' fixes the depth-first execution order, `get_path()` and
+    `peak_size()`.  A tree after a history of transformations equals a tree rebuilt from (path, sliced indices)
+    only if that choice is a function of the two node sets alone: a tie-break that consults the tree's current
+    state (sizes under the current slicing, cached figures) makes the orientation depend on *when* the node was
+    (re)created."""
+    r = RuleResult("C04-ORIENT", "the left/right orientation of a node depends on the node sets only", 1)
+    tc = tree_class(ctx)
+    f = tc.lookup("contract_nodes_pair")
+    C.require(f is not None, "contract_nodes_pair not found")
+    fl = ctx.flow(f)
+    # the test that decides the pair stored as children
+    link = [n for n in walk_local(f.node) if isinstance(n, ast.Assign) and
+            any(isinstance(t, ast.Subscript) and C.unparse(t.value) == "self.children" for t in n.targets)]
+    C.require(link, "contract_nodes_pair: children store not found")
+    val = link[0].value
+    lrn = dotted(val)
+    C.require(lrn is not None, "contract_nodes_pair: children are not stored from a local pair")
+    tests = []
+    for n in walk_local(f.node):
+        if isinstance(n, ast.Assign) and any(isinstance(t, ast.Name) and t.id == lrn for t in n.targets):
+            for i_, _ in C.enclosing_ifs(f, n):
+                if i_ not in tests:
+                    tests.append(i_)
+    C.require(tests, "contract_nodes_pair: the test that orients the pair was not found")
+    key = ctx.key(f, "C04-ORIENT")
+    params = set([a.arg for a in f.node.args.args][1:3])
+    bad = None
+    for t in tests:
+        tn = fl.cfg.node_of(t)
+        deps = fl.deps(t.test, tn.id, "may")
+        for d_ in deps:
+            if d_[0] == "param" and d_[1] in params:
+                continue
+            if d_[0] == "call" and d_[1].split(".")[-1] in ("len", "min", "max", "sorted", "tuple", "hash"):
+                continue
+            if d_[0] in ("const", "global") :
+                continue
+            bad = (t, d_)
+            break
+        if bad:
+            break
+    if bad:
+        t, d_ = bad
+        r.violation(key, C.loc(f, t), f"the orientation test `{C.unparse(t.test, 50)}` depends on {d_[0]} `{d_[1]}` — the tree's state "
+                    f"at the moment the node is created: a node re-created while an index is sliced (restore_ind, "
+                    f"reconfigure, anneal) can be oriented differently from the same node in a tree rebuilt from the path, "
+                    f"and execution order, get_path() and peak_size() differ although the structure is the same")
+    else:
+        r.ok(key, C.loc(f, tests[0]), "left/right is decided from the two node sets alone (extent, smallest leaf)")
+    return r
+
+
+RULES = [rule_orient, rule_merge, rule_arith, rule_copy, rule_alias, rule_track, rule_staleread, rule_pre, rule_presource, rule_whole,
          rule_presurv, rule_pure, rule_rebuild, rule_multpair, rule_maxcount, rule_leaf]
